@@ -358,6 +358,25 @@ def run(tier, seed):
     if chk.violations:           # the negative controls presuppose an implementation that conforms
         return chk.finish()
     controls(chk, tier, seed, usable, tabs, rng)
+    import random as _random
+    import obs_reuse
+    import lattice as _lat
+    from qucumber.observables import SigmaX as _SX, SigmaY as _SY, SigmaZ as _SZ, NeighbourInteraction as _NI
+    _rng = _random.Random(seed)
+    _states = []
+    for _typ in ("positive", "complex", "density"):
+        _st = _lat.PositiveWaveFunction(3, 2, gpu=False) if _typ == "positive" else (
+            _lat.ComplexWaveFunction(3, 2, gpu=False) if _typ == "complex" else _lat.DensityMatrix(3, 2, 2, gpu=False))
+        with torch.no_grad():
+            for _net in _st.networks:
+                for _p in getattr(_st, _net).parameters():
+                    _p.copy_(torch.randn_like(_p) * 0.6)
+            if _typ == "density":
+                _st.rbm_ph.aux_bias.zero_()
+        _states.append((_typ, _st))
+    for _mk in (lambda: _SX(), lambda: _SY(), lambda: _SZ(), lambda: _SY(absolute=True),
+                lambda: _NI(periodic_bcs=True, c=2), lambda: _NI(c=1)):
+        obs_reuse.reuse_phase(chk, _mk, _states, _rng, "apply", rounds=4)
     chk.assumptions += [
         "X, Y are the Pauli matrices in the (|0>,|1>) order; Z-type observables use the library's documented spin "
         "map s = 2 sigma - 1 (per-site operator diag(-1,+1)), so SigmaZ is minus the Pauli-Z magnetisation",
